@@ -36,6 +36,7 @@ func runC01(c *Ctx) {
 	indexGuards(c, "R6")
 	repeatGuards(c, "R6")
 	payloadUnderTag(c, "R7")
+	lexerByteIndex(c, "R6")
 	cliExitDiscipline(c, "R8")
 	if es := c.P.LangFunc("(*Evaluator).evalStatement"); es != nil {
 		c.shared("R10", "C07/R7", "for-in over an array iterates with Go's range over the array value taken at loop entry (bounds-safe by construction): an index loop with a hoisted length panics when the body shrinks the array", keyHas("for-in ValueArray"), func(s *Ctx) { c07ForIn(s, es) })
@@ -44,6 +45,7 @@ func runC01(c *Ctx) {
 		cycleGuard(s, "R3", "(*Value).toGoValueInterval")
 		cycleGuard(s, "R3", "(*Value).prettyStringInteral")
 	})
+	c.shared("R15", "C10/R6", "no evaluator is used half-built: all interpreter state is the documented set, created by the one constructor — a map field added for a cache and made in only one of the two entry points is a nil-map panic in the other", keyHas("evaluator-state", "syntax-tree-store", "interpreter-state"), func(s *Ctx) { interpreterState(s, "R6") })
 	c.shared("R13", "C12/R8", "building an error message never crashes: the line / column computation is the recognised scan over byte offsets, which slices the source text only between a recorded line start and the scan index (no computed bound that an empty text or an end position could push out of range)", keyHas("scan-index", "line-", "column", "source-line"), c12LineColArithmetic)
 	c.shared("R14", "C09/R3", "a function value never becomes an element of a container: call arguments and literal items are copied on insertion, and the copy rejects functions — sort's clone and the renderers rely on every element being a data value", keyHas("copy-on-insert", "copy-flag-"), c09R3)
 	c.shared("R12", "C15/R2", "no nil cell ever sits in a slice that a value may still cover: pop and popfirst only re-slice their receiver, nothing is written into the backing array (which copies of the array share), so rendering or iterating another reference never meets a nil cell", keyHas("array.pop", "array.push"), func(s *Ctx) { c15R2(s, nativeMethods(s.P)) })
